@@ -479,6 +479,12 @@ def run(ctx):
         else:
             tb, why = table(g, setb, paths, 0)
             tb2, why2 = table(g, setb, paths, 1)
+            if (tb is None or tb2 is None) and (why or why2) == "no loop sets the classification flags":
+                # the flags are set outside any loop of this function (a per-character method whose state lives in `self`):
+                # the table cannot be read off a trip round a loop; nothing is concluded for this scanner
+                ctx.ob("R2", "table(%s)" % g.npath, True, ctx.where(g), "not evaluated: this scanner sets the flags outside a loop of its own "
+                       "(a per-character method, for instance); its classification table is not read")
+                continue
             if tb is None or tb2 is None:
                 ctx.ob("R2", "table(%s)" % g.npath, False, ctx.where(g), why or why2)
                 continue
